@@ -120,6 +120,23 @@ func c04ConcealedIds(c *caseCtx) {
 	for i := range ch {
 		ch[i] = ren[ch[i].(string)]
 	}
+	if c.rng.Intn(3) == 0 {
+		// values for criteria nobody declared (input the weighted sum accepts and ignores): they take no part in anything,
+		// whatever position they have in an alternative's map
+		for _, a := range g.M["knownAlternatives"].([]interface{}) {
+			cv := a.(M)["criteria"].(M)
+			if c.rng.Intn(3) != 0 {
+				cv["aa_undeclared"] = quarter(c.rng, 0, 400)
+			}
+			if c.rng.Intn(2) == 0 {
+				cv["zz_undeclared"] = quarter(c.rng, 0, 400)
+			}
+			if c.rng.Intn(2) == 0 {
+				cv["c_undeclared"] = quarter(c.rng, 0, 400)
+			}
+		}
+		c.count("with_undeclared_values", 1)
+	}
 	d := decide(g.body(), false)
 	c.count("evaluations", 1)
 	if !d.OK {
